@@ -394,6 +394,21 @@ Definition depth_table (ads first scoped : Z) (stop : option cid) : option nat :
                    end in
   if (pick <? 1)%Z then None else Some (Z.to_nat pick).
 
+(* the head a SyncAdChain call syncs to, and whether it was queried from the publisher *)
+Definition the_head (a : adcall) : option (cid * bool) :=
+  match a_head a with
+  | Some h => Some (h, false)
+  | None => match a_pubhead a with
+            | Some h => Some (h, true)
+            | None => None
+            end
+  end.
+
+(* depth limit of a SyncEntries call: per-call depth, else the subscriber's *)
+Definition entries_depth_table (entries scoped : Z) : option nat :=
+  let pick := if negb (scoped =? 0)%Z then scoped else entries in
+  if (pick <? 1)%Z then None else Some (Z.to_nat pick).
+
 (* the world of a chain ch (newest first): each block links its successor with an edge of
    kind k, and carries [extra] other links the chain selectors ignore *)
 Fixpoint chain_dag (k : ekind) (extra : list edge) (ch : list cid) : dag :=
@@ -422,6 +437,39 @@ Definition avail (pub store l : list cid) : bool :=
 (* the blocks of seg the local store lacks, in order *)
 Definition missing (store seg : list cid) : list cid :=
   filter (fun x => negb (memb x store)) seg.
+
+(* trees of blocks, for the all-links selector (SyncHAMTEntries) *)
+Inductive tree := Node (c : cid) (kids : list tree).
+
+Definition root (t : tree) : cid := match t with Node c _ => c end.
+
+Fixpoint preorder (t : tree) : list cid :=
+  match t with
+  | Node c ks => c :: (fix go (l : list tree) : list cid :=
+                         match l with [] => [] | x :: r => preorder x ++ go r end) ks
+  end.
+
+Fixpoint depth (t : tree) : nat :=
+  match t with
+  | Node c ks => S ((fix go (l : list tree) : nat :=
+                       match l with [] => 0%nat | x :: r => Nat.max (depth x) (go r) end) ks)
+  end.
+
+Definition edges_eqb (a b : list edge) : bool :=
+  list_eqb (fun x y => (snd x =? snd y)) a b.
+
+(* the world holds the tree: every block of t links exactly its children, in order (any kind
+   of link, nested or not: the all-links selector follows them all) *)
+Fixpoint dag_has (d : dag) (t : tree) : bool :=
+  match t with
+  | Node c ks =>
+    match dag_get d c with
+    | Some es => list_eqb N.eqb (map snd es) (map root ks)
+    | None => false
+    end &&
+    (fix go (l : list tree) : bool :=
+       match l with [] => true | x :: r => dag_has d x && go r end) ks
+  end.
 
 Definition kind_view (k : ekind) : view :=
   match k with EPrev => VPrev | ENext => VNext | EOther => VAll end.
